@@ -171,7 +171,60 @@ def sevenz_variants():
     content_aes = sevenz(bytes(range(16)), b"\x01\x04" + _streams(16, [(AES7, props)], [11]) + b"\x00" + _files("a.txt") + b"\x00")
     chain_aes = sevenz(bytes(range(16)), b"\x01\x04" + _streams(16, [(b"\x21", b"\x18"), (AES7, props)], [11, 16]) + b"\x00" + _files("a.txt") + b"\x00")
     header_aes = sevenz(bytes(range(16)), b"\x17" + _streams(16, [(AES7, props)], [16]) + b"\x00")
-    return {"plain": plain, "content-aes": content_aes, "lzma2+aes": chain_aes, "header-aes": header_aes}
+    header_aes_copy = sevenz(bytes(range(16)), b"\x17" + _streams(16, [(AES7, props), (b"\x00", None)], [16, 16]) + b"\x00")
+    header_copy_aes = sevenz(bytes(range(16)), b"\x17" + _streams(16, [(b"\x00", None), (AES7, props)], [16, 16]) + b"\x00")
+    return {"plain": plain, "content-aes": content_aes, "lzma2+aes": chain_aes, "header-aes": header_aes,
+            "header-aes+copy": header_aes_copy, "header-copy+aes": header_copy_aes}
+
+
+def sevenz_two_folders(second_coders):
+    """Two folders / two files: the first folder is plain (copy), the second has the given coder chain."""
+    props = b"\x13\x00\x00"
+    coders2 = [(c, props if c == AES7 else None) for c in second_coders]
+    packed = b"hello world" + bytes(range(16))
+    streams = (b"\x06\x00\x02\x09" + bytes([11, 16]) + b"\x00" + b"\x07\x0b\x02\x00" + _folder([(b"\x00", None)]) + _folder(coders2)
+               + b"\x0c" + bytes([11] + [16] * len(coders2)) + b"\x00")
+    names = b"\x00" + "a.txt".encode("utf-16-le") + b"\x00\x00" + "b.txt".encode("utf-16-le") + b"\x00\x00"
+    files = b"\x05\x02\x11" + bytes([len(names)]) + names + b"\x00"
+    return sevenz(packed, b"\x01\x04" + streams + b"\x00" + files + b"\x00")
+
+
+def big_manifest(s, encrypted):
+    """Manifest larger than 64 KiB (many picture entries), the encryption-data element placed after them."""
+    filler = "".join(f'<manifest:file-entry manifest:full-path="Pictures/p{i:05d}.png" manifest:media-type="image/png"/>' for i in range(900))
+    s = s.replace("</manifest:manifest>", filler + "</manifest:manifest>")
+    if encrypted:
+        s = s.replace("</manifest:manifest>", '<manifest:file-entry manifest:full-path="late.xml" manifest:media-type="text/xml">' + ENC_DATA + "</manifest:file-entry></manifest:manifest>")
+    return s
+
+
+def doc_fib_variants():
+    """Copies of a plain .doc fixture with the FIB patched in place: wIdent (0xA5EC Word 97 / 0xA5DC Word 6/95) and
+    fEncrypted (bit 0x0100 of the word at 0x0A).  -> [(label, bytes, expected verdict)]"""
+    import olefile
+    for p in sorted(glob.glob(os.path.join(RES, "**/*.doc"), recursive=True)):
+        if "password" in p:
+            continue
+        raw = open(p, "rb").read()
+        if not olefile.isOleFile(io.BytesIO(raw)):
+            continue
+        with olefile.OleFileIO(io.BytesIO(raw)) as ole:
+            if not ole.exists("WordDocument"):
+                continue
+            head = ole.openstream("WordDocument").read()[:64]
+        at = raw.find(head)
+        if at < 0 or raw.find(head, at + 1) >= 0 or head[:2] != b"\xec\xa5":
+            continue
+        out = []
+        for ident, iname in ((0xA5EC, "Word97"), (0xA5DC, "Word6/95")):
+            for flag in (False, True):
+                b = bytearray(raw)
+                struct.pack_into("<H", b, at, ident)
+                fl = struct.unpack_from("<H", b, at + 0x0A)[0]
+                struct.pack_into("<H", b, at + 0x0A, (fl | 0x0100) if flag else (fl & ~0x0100))
+                out.append((f"{os.path.basename(p)}: wIdent={iname}, fEncrypted={int(flag)}", bytes(b), "encrypted" if flag else "not-encrypted"))
+        return out
+    return []
 
 
 def enc_xml(algos):
@@ -346,14 +399,51 @@ def sweep():
             res = run(extractor_for(ext), data, ext)
             if res[0] != want or (want == "encrypted" and res[1] != 0):
                 return fail("extractor:" + ext, {"fixture": fx, "manifest_has_encryption_data": want == "encrypted"}, want, str(res))
+        if ext in ("a.odt", "a.ods"):      # manifests larger than 64 KiB (documents with many pictures)
+            for encrypted in (False, True):
+                data = rebuild_zip(src, manifest_edit(lambda m, e=encrypted: big_manifest(m, e)))
+                res = run(extractor_for(ext), data, ext)
+                want = "encrypted" if encrypted else "ok"
+                if manifest_has_encryption_element(data) != encrypted or res[0] != want or (encrypted and res[1] != 0):
+                    return fail("extractor:" + ext, {"fixture": fx, "manifest_bytes": "> 64 KiB (900 extra picture entries)", "encryption_data_element": encrypted}, want, str(res))
+    # 5b. DOC: FIB patched in place (wIdent Word 97 / Word 6-95, fEncrypted bit)
+    from sharepoint2text.parsing.extractors.ms_legacy.doc_extractor import read_doc
+    for label, data, want in doc_fib_variants():
+        res = run(read_doc, data, "a.doc")
+        if (want == "encrypted") != (res[0] == "encrypted") or (want == "encrypted" and res[1] != 0):
+            return fail("read_doc", {"doc": label}, want, str(res))
     # 6. 7z coder chains
+    res = run(read_archive, sevenz_two_folders([b"\x00"]), "x.7z")
+    if res[0] != "ok":
+        return fail("read_archive(7z)", {"folders": "two plain (copy) folders"}, "ok", str(res))
+    if not doc_fib_variants():
+        return fail("builder", {"doc": "no patchable .doc fixture"}, "4 FIB variants", "none")
+    for label, coders in (("second folder AES", [AES7]), ("second folder LZMA2+AES", [b"\x21", AES7])):
+        res = run(read_archive, sevenz_two_folders(coders), "x.7z")
+        if res[0] != "encrypted" or res[1] != 0:
+            return fail("read_archive(7z)", {"folders": "first plain (copy), " + label}, "encrypted, 0 results", str(res))
     for name, data in sevenz_variants().items():
-        if name == "header-aes":
-            continue        # recorded finding F26
         res = run(read_archive, data, "x.7z")
         want = "ok" if name == "plain" else "encrypted"
         if res[0] != want or (want == "encrypted" and res[1] != 0):
             return fail("read_archive(7z)", {"variant": name}, want, str(res))
+    # 6b. e-mail attachments (entry point): a protected attachment surfaces as the file-encrypted error, not skipped
+    from sharepoint2text.parsing.extractors.data_types import EmailAddress, EmailAttachment, EmailContent
+    for p in prot:
+        name = os.path.basename(p)
+        mail = EmailContent(from_email=EmailAddress(address="a@b.c"), attachments=[
+            EmailAttachment(filename=name, mime_type="application/octet-stream", data=io.BytesIO(open(p, "rb").read()), is_supported_mime_type=True)])
+        n = 0
+        try:
+            for _r in mail.iterate_supported_attachments():
+                n += 1
+            v = "ok"
+        except _enc_err():
+            v = "encrypted"
+        except Exception as e:  # noqa
+            v = "other:" + type(e).__name__
+        if v != "encrypted" or n != 0:
+            return fail("EmailContent.iterate_supported_attachments", {"attachment": os.path.relpath(p, REPO)}, "ExtractionFileEncryptedError, 0 results", f"{v}, {n}")
     # 7. EPUB
     from sharepoint2text.parsing.extractors.epub_extractor import read_epub
     ep = open(sorted(glob.glob(os.path.join(RES, "**/*.epub"), recursive=True))[0], "rb").read()
@@ -367,9 +457,7 @@ def sweep():
         if res[0] != want or (want == "encrypted" and res[1] != 0):
             return fail("read_epub", {"variant": label}, want, str(res))
     # 8. PDF: pypdf-encrypted copies of a plain fixture (empty / non-empty user password)
-    r = pdf_pairs(skip=("AES-128|",))        # AES-128 with the empty password: recorded finding F28 (replayed by id)
-    if r is not None:
-        return r
+    #    (the stored copies of step 9 replaced the slower re-writing of a 50 KB fixture; pdf_pairs() is kept for the F28 replay)
     # 9. stored RC4 / AES-128 / AES-256 copies of a tiny PDF, each read in a fresh process; the AES patch itself
     return aes_patch_check() or embedded_pdfs()
 
